@@ -1,10 +1,19 @@
+// Command gcstress is the supplementary, NOT deterministic probe of C14: entities whose components reference heap
+// objects reachable only through them are moved between tables, swap-removed, retargeted and batch-moved while the
+// Go collector runs concurrently under heavy pressure (GOGC=1, allocation churn on other goroutines). The operation
+// sequence is a function of the seed; the collector's schedule is not controlled (no seam exists for it), so a
+// failure is reproduced statistically, not exactly. See DESIGN.md, C14.
+//
+// Exit 0: no corruption seen. Exit 1: "CORRUPTION" line. A fatal runtime error ("found pointer to free object")
+// kills the process with exit status 2.
 package main
 
 import (
+	"flag"
 	"fmt"
 	"os"
-	"runtime"
 	"runtime/debug"
+	"time"
 
 	"github.com/mlange-42/arche/ecs"
 )
@@ -14,76 +23,170 @@ type Payload struct {
 	Pay [6]uint64
 }
 type Holder struct {
-	P *Payload
-	S []uint64
+	P   *Payload
+	S   []uint64
+	Str string
+}
+type Holder2 struct {
+	Pad uint32
+	M   map[uint64]uint64
+	P   *Payload
 }
 type Tag struct{ X uint64 }
+type Label struct{}
+type ChildOf struct {
+	ecs.Relation
+	P *Payload
+}
 
-var sink [][]byte
+type rng struct{ s uint64 }
+
+func (r *rng) next() uint64 {
+	r.s += 0x9E3779B97F4A7C15
+	z := r.s
+	z = (z ^ (z >> 30)) * 0xBF58476D1CE4E5B9
+	z = (z ^ (z >> 27)) * 0x94D049BB133111EB
+	return z ^ (z >> 31)
+}
+func (r *rng) n(k int) int { return int(r.next() % uint64(k)) }
+
+func payload(c uint64) *Payload {
+	return &Payload{ID: c, Pay: [6]uint64{c, c + 1, c + 2, c + 3, c + 4, c + 5}}
+}
+func okPayload(p *Payload, c uint64) bool {
+	return p != nil && p.ID == c && p.Pay[0] == c && p.Pay[5] == c+5
+}
 
 func main() {
+	seed := flag.Uint64("seed", 1, "")
+	seconds := flag.Int("seconds", 6, "")
+	flag.Parse()
 	debug.SetGCPercent(1)
-	w := ecs.NewWorld(ecs.NewConfig().WithCapacityIncrement(2))
+	r := &rng{s: *seed}
+	w := ecs.NewWorld(ecs.NewConfig().WithCapacityIncrement(1 + r.n(4)))
+	labelID := ecs.ComponentID[Label](&w) // zero-sized component with the lowest ID
 	hid := ecs.ComponentID[Holder](&w)
 	tid := ecs.ComponentID[Tag](&w)
-	const N = 2000
-	ents := make([]ecs.Entity, N)
-	ids := make([]uint64, N)
-	next := uint64(1)
-	mk := func(c uint64) *Holder {
-		return &Holder{P: &Payload{ID: c, Pay: [6]uint64{c, c + 1, c + 2, c + 3, c + 4, c + 5}}, S: []uint64{c, c * 3, c * 7}}
-	}
-	for i := range ents {
-		ents[i] = w.NewEntity(hid)
-		h := (*Holder)(w.Get(ents[i], hid))
-		*h = *mk(next)
-		ids[i] = next
-		next++
-	}
-	// churn goroutines to keep the collector busy
+	h2id := ecs.ComponentID[Holder2](&w)
+	cid := ecs.ComponentID[ChildOf](&w)
+
 	for g := 0; g < 3; g++ {
 		go func() {
 			var local [][]byte
 			for {
-				local = append(local, make([]byte, 256))
-				if len(local) > 2000 {
+				local = append(local, make([]byte, 192))
+				if len(local) > 3000 {
 					local = local[:0]
 				}
 			}
 		}()
 	}
-	bad := 0
-	for round := 0; round < 400; round++ {
-		for i := range ents {
-			// move between tables: barrier-less raw copies of pointer-containing rows
-			if w.Has(ents[i], tid) {
-				w.Remove(ents[i], tid)
-			} else {
-				w.Add(ents[i], tid)
+
+	type rec struct {
+		e          ecs.Entity
+		h, h2, rel uint64 // expected canaries (0 = component absent)
+	}
+	var ents []*rec
+	var parents []ecs.Entity
+	for i := 0; i < 8; i++ {
+		parents = append(parents, w.NewEntity())
+	}
+	next := uint64(1)
+	fresh := func() uint64 { next++; return next }
+	setH := func(x *rec) {
+		c := fresh()
+		*(*Holder)(w.Get(x.e, hid)) = Holder{P: payload(c), S: []uint64{c, c * 3, c * 7}, Str: fmt.Sprint("s", c)}
+		x.h = c
+	}
+	setH2 := func(x *rec) {
+		c := fresh()
+		*(*Holder2)(w.Get(x.e, h2id)) = Holder2{Pad: uint32(c), M: map[uint64]uint64{c: c + 1}, P: payload(c)}
+		x.h2 = c
+	}
+	setRel := func(x *rec) {
+		c := fresh()
+		(*ChildOf)(w.Get(x.e, cid)).P = payload(c)
+		x.rel = c
+	}
+	check := func(round int) {
+		for i, x := range ents {
+			if x.h != 0 {
+				h := (*Holder)(w.Get(x.e, hid))
+				if !okPayload(h.P, x.h) || len(h.S) != 3 || h.S[0] != x.h || h.S[2] != x.h*7 || h.Str != fmt.Sprint("s", x.h) {
+					fmt.Printf("CORRUPTION round %d entity #%d %v: Holder does not hold canary %d: P=%+v S=%v Str=%q\n", round, i, x.e, x.h, h.P, h.S, h.Str)
+					os.Exit(1)
+				}
 			}
-			if i%7 == 0 {
-				// refresh the value with new heap objects (only referenced from the table)
-				h := (*Holder)(w.Get(ents[i], hid))
-				*h = *mk(next)
-				ids[i] = next
-				next++
+			if x.h2 != 0 {
+				h := (*Holder2)(w.Get(x.e, h2id))
+				if !okPayload(h.P, x.h2) || len(h.M) != 1 || h.M[x.h2] != x.h2+1 || h.Pad != uint32(x.h2) {
+					fmt.Printf("CORRUPTION round %d entity #%d %v: Holder2 does not hold canary %d\n", round, i, x.e, x.h2)
+					os.Exit(1)
+				}
 			}
-		}
-		for i := range ents {
-			h := (*Holder)(w.Get(ents[i], hid))
-			c := ids[i]
-			if h.P == nil || h.P.ID != c || h.P.Pay[5] != c+5 || len(h.S) != 3 || h.S[0] != c || h.S[2] != c*7 {
-				bad++
-				if bad < 5 {
-					fmt.Printf("round %d entity %d: corrupt (want %d): P=%+v S=%v\n", round, i, c, h.P, h.S)
+			if x.rel != 0 {
+				if !okPayload((*ChildOf)(w.Get(x.e, cid)).P, x.rel) {
+					fmt.Printf("CORRUPTION round %d entity #%d %v: ChildOf does not hold canary %d\n", round, i, x.e, x.rel)
+					os.Exit(1)
 				}
 			}
 		}
-		if bad > 0 {
-			fmt.Println("CORRUPTION after round", round, "bad =", bad)
-			os.Exit(1)
-		}
 	}
-	runtime.KeepAlive(sink)
-	fmt.Println("no corruption observed")
+	deadline := time.Now().Add(time.Duration(*seconds) * time.Second)
+	ops := 0
+	for round := 0; time.Now().Before(deadline); round++ {
+		for k := 0; k < 400; k++ {
+			ops++
+			switch op := r.n(10); {
+			case op < 2 || len(ents) < 50:
+				if len(ents) > 1500 {
+					continue
+				}
+				x := &rec{e: w.NewEntity(labelID, hid)}
+				setH(x)
+				ents = append(ents, x)
+			case op < 4: // move between tables
+				x := ents[r.n(len(ents))]
+				if w.Has(x.e, tid) {
+					w.Remove(x.e, tid)
+				} else {
+					w.Add(x.e, tid)
+				}
+			case op < 5: // second pointer component
+				x := ents[r.n(len(ents))]
+				if x.h2 == 0 {
+					w.Add(x.e, h2id)
+					setH2(x)
+				} else {
+					w.Remove(x.e, h2id)
+					x.h2 = 0
+				}
+			case op < 6: // relation with a pointer payload, retargeting = move between relation tables
+				x := ents[r.n(len(ents))]
+				if x.rel == 0 {
+					w.Relations().Exchange(x.e, []ecs.ID{cid}, nil, cid, parents[r.n(len(parents))])
+					setRel(x)
+				} else {
+					w.Relations().Set(x.e, cid, parents[r.n(len(parents))])
+				}
+			case op < 8: // swap-remove: remove a row that is (mostly) not the last
+				i := r.n(len(ents))
+				w.RemoveEntity(ents[i].e)
+				ents[i] = ents[len(ents)-1]
+				ents = ents[:len(ents)-1]
+			case op < 9: // refresh a value with new heap objects, only referenced from the table
+				setH(ents[r.n(len(ents))])
+			default: // batch moves
+				if r.n(2) == 0 {
+					f := ecs.All(hid).Without(tid)
+					w.Batch().Add(&f, tid)
+				} else {
+					w.Batch().Remove(ecs.All(hid, tid), tid)
+				}
+			}
+		}
+		check(round)
+	}
+	check(-1)
+	fmt.Printf("no corruption observed: %d operations, %d entities\n", ops, len(ents))
 }
